@@ -19,6 +19,7 @@ open Reduino.Lang.Assemble (repeatList)
 
 inductive Kind where
   | led | rgb | servo | motor | buzzer | button | pot | ultra | lcd | serial
+  | buttonIn     -- W10: a Button whose declaration carries mode INPUT (ButtonDecl.mode; `button` = the default INPUT_PULLUP)
   deriving DecidableEq, Repr
 
 inductive Mode where
@@ -32,6 +33,7 @@ inductive Item where
   | decl (k : Kind) (name : String) (pins : List Nat)
   | use (name : String)            -- one command / query on the named device
   | stmt (tag : Nat)               -- any other statement
+  | animate (name : String)        -- W10: `name.animate(…)`, an animation started on the named LCD
   deriving DecidableEq, Repr
 
 structure Prog where
@@ -50,16 +52,18 @@ inductive Ev where
   | lcdWrite (name : String)
   | stmt (tag : Nat)
   | poll (name : String) (pin : Nat)   -- injected digitalRead at the head of loop()
+  | animStart (name : String)      -- W10: __redu_lcd_start_<style>(…) on that display
+  | tick (name : String)           -- W10: injected __redu_lcd_tick_<style>(…) on that display, at the head of loop()
   deriving DecidableEq, Repr
 
 /-- the shapes of tuples in the emitter's pinMode dedup sets -/
 inductive Slot where
-  | button | in1 | in2 | enable | out | inp | idx (i : Nat) | led | uSetupOut | uSetupIn | uLoopOut | uLoopIn
+  | button | buttonIn | in1 | in2 | enable | out | inp | idx (i : Nat) | led | uSetupOut | uSetupIn | uLoopOut | uLoopIn
   deriving DecidableEq, Repr
 
 def Slot.mode : Slot → Mode
   | .button => .pullup
-  | .inp | .uSetupIn | .uLoopIn => .input
+  | .inp | .uSetupIn | .uLoopIn | .buttonIn => .input
   | _ => .output
 
 structure Key where
@@ -122,6 +126,12 @@ def p1Setup (s : St) (k : Kind) (n : String) (ps : List Nat) : St × List Ev :=
     | none =>
       let r := ensure ⟨n, p, .button⟩ s
       (withEnv r.1 (set s.env n .button ps), r.2 ++ [.read p])     -- pinMode + initial sample
+  | .buttonIn, [p] =>                                               -- the same with `pinMode(p, INPUT)`; the sample is not affected
+    match get s.env n .buttonIn with
+    | some _ => (withEnv s (set s.env n .buttonIn ps), [])
+    | none =>
+      let r := ensure ⟨n, p, .buttonIn⟩ s
+      (withEnv r.1 (set s.env n .buttonIn ps), r.2 ++ [.read p])
   | .servo, [p] =>
     match get s.env n .servo with
     | some _ => (s, [])
@@ -151,6 +161,10 @@ def p1Loop (s : St) (k : Kind) (n : String) (ps : List Nat) : St × List Ev :=
     let r := ensure ⟨n, p, .button⟩ s
     (withEnv r.1 (set s.env n .button ps),
       r.2 ++ (match get s.env n .button with | some _ => [] | none => [.read p]))
+  | .buttonIn, [p] =>
+    let r := ensure ⟨n, p, .buttonIn⟩ s
+    (withEnv r.1 (set s.env n .buttonIn ps),
+      r.2 ++ (match get s.env n .buttonIn with | some _ => [] | none => [.read p]))
   | .servo, [p] =>
     match get s.env n .servo with
     | some _ => (s, [])
@@ -241,6 +255,13 @@ def useOf (fin : String → Option (List Nat)) (w : W) (n : String) : List Ev :=
   | some k => (match get w.st.env n k with | some ps => useEvents k n ps | none => [])
   | none => []
 
+/-- W10. `name.animate(…)`: the parser recognises it on a name it knows as an LCD, the emitter writes the start call when the
+    display is registered (`_ensure_lcd`); in setup() this also appends the animation to `lcd_animations[name]` -/
+def animOf (w : W) (n : String) : List Ev :=
+  match kindOf w.cur n with
+  | some .lcd => (match get w.st.env n .lcd with | some _ => [.animStart n] | none => [])
+  | _ => []
+
 def foldEv {σ : Type} (f : σ → Item → σ × List Ev) : σ → List Item → σ × List Ev
   | s, [] => (s, [])
   | s, i :: is =>
@@ -260,11 +281,13 @@ def stepSetup (fin : String → Option (List Nat)) (w : W) : Item → W × List 
   | .decl k n ps => let r := p2Setup w.st k n ps; ({ st := r.1, cur := (n, k) :: w.cur }, r.2)
   | .use n => (w, useOf fin w n)
   | .stmt t => (w, [.stmt t])
+  | .animate n => (w, animOf w n)
 
 def stepLoop (fin : String → Option (List Nat)) (w : W) : Item → W × List Ev
   | .decl k n ps => let r := p2Loop w.st k n ps; ({ st := r.1, cur := (n, k) :: w.cur }, r.2)
   | .use n => (w, useOf fin w n)
   | .stmt t => (w, [.stmt t])
+  | .animate n => (w, animOf w n)
 
 def pass1S (p : Prog) : St × List Ev := foldEv p1SetupItem ⟨[], []⟩ p.setup
 def pass1L (p : Prog) : St × List Ev := foldEv p1LoopItem (pass1S p).1 p.loop
@@ -281,17 +304,33 @@ def insertUniq (x : String) : List String → List String
 def sortUniq (l : List String) : List String := l.foldr insertUniq []
 
 def buttonNames (l : List Item) : List String :=
-  l.filterMap fun i => match i with | .decl .button n _ => some n | _ => none
+  l.filterMap fun i => match i with | .decl .button n _ => some n | .decl .buttonIn n _ => some n | _ => none
 
 /-- ButtonPoll reads the pin of button_decls[name] as pass 1 left it (the last top-level binding) -/
 def pollOf (env : Env) (n : String) : Option Ev :=
   match get env n .button with
   | some [pin] => some (.poll n pin)
-  | _ => none
+  | _ =>
+    match get env n .buttonIn with
+    | some [pin] => some (.poll n pin)
+    | _ => none
 
 def polls (p : Prog) : List Ev := (sortUniq (buttonNames (p.setup ++ p.loop))).filterMap (pollOf (pass1L p).1.env)
 
-def loopEvents (p : Prog) : List Ev := polls p ++ (pass2L p).2
+/-- W10. parse() collects in `lcd_tick_names` every LCD name with an `animate` ANYWHERE and prepends one `LCDTick(name)` per
+    name, sorted, to loop_body — after that the ButtonPolls are prepended, so polls come first.  The emitter turns an LCDTick into
+    one tick call per entry of `lcd_animations[name]` AT THAT POINT of pass 2: the animations started in setup().  An animation
+    started inside the loop body is appended later and never ticked (K18a). -/
+def animNames (l : List Item) : List String :=
+  l.filterMap fun i => match i with | .animate n => some n | _ => none
+
+/-- how many animations setup() starts on display `n` -/
+def startedInSetup (p : Prog) (n : String) : Nat := (pass2S p).2.count (.animStart n)
+
+def ticks (p : Prog) : List Ev :=
+  (sortUniq (animNames (p.setup ++ p.loop))).flatMap fun n => List.replicate (startedInSetup p n) (.tick n)
+
+def loopEvents (p : Prog) : List Ev := polls p ++ (ticks p ++ (pass2L p).2)
 
 /-- everything the firmware does at pin level in `setup(); loop() × N` -/
 def run (p : Prog) (N : Nat) : List Ev := setupEvents p ++ repeatList (loopEvents p) N
